@@ -243,7 +243,16 @@ func (ev *Evaluator) EvalSetting(key string, st []string, deep bool) Res {
 	if s.Ex.IsSingleRef() {
 		return ev.refValue(s.Ex.Name.Text, st, deep)
 	}
-	return ev.Eval(s.Ex, st)
+	r := ev.Eval(s.Ex, st)
+	if !r.IsErr && s.Ex.HasVar() {
+		// the substituted text of a setting passes the documented text->value
+		// step before anybody sees it; for the texts generated here (words and
+		// blanks) that step only strips surrounding white space
+		if t := strings.TrimSpace(r.S); t != "" {
+			r.S = t
+		}
+	}
+	return r
 }
 
 // Members lists the settings below the object path name (sorted).
